@@ -188,12 +188,16 @@ static enum cc_stat expand_capacity(CC_PQueue *pq)
 
     /* As long as the capacity is greater that the expansion factor
      * at the point of overflow, this is check is valid. */
-    if (new_capacity <= pq->capacity)
-        pq->capacity = CC_MAX_ELEMENTS;
-    else
-        pq->capacity = new_capacity;
+    if (new_capacity <= pq->capacity) {
+        /* Either the product overflowed, or the factor is too small to
+         * make progress at this capacity. */
+        if (pq->capacity < CC_MAX_ELEMENTS / 2)
+            new_capacity = pq->capacity + 1;
+        else
+            new_capacity = CC_MAX_ELEMENTS;
+    }
 
-    void **new_buff = pq->mem_alloc(pq->capacity * sizeof(void*));
+    void **new_buff = pq->mem_alloc(new_capacity * sizeof(void*));
 
     if (!new_buff)
         return CC_ERR_ALLOC;
@@ -201,7 +205,8 @@ static enum cc_stat expand_capacity(CC_PQueue *pq)
     memcpy(new_buff, pq->buffer, pq->size * sizeof(void*));
 
     pq->mem_free(pq->buffer);
-    pq->buffer = new_buff;
+    pq->buffer   = new_buff;
+    pq->capacity = new_capacity;
 
     return CC_OK;
 }
